@@ -24,7 +24,7 @@ CLAIMS = {
          "TraceRegistryAbs (free only when unheld, by a non-handler frame; action released once by the remover; "
          "no run after removal returned); an inductive invariant of the SC reading (HalfLockSC.tla) is re-checked by "
          "Apalache with the extracted read order / barrier shape (NoUseAfterFree for unboundedly many stores and steps) and "
-         "HalfLockProof.tla carries a TLAPS proof of the same for any number of readers (42 obligations, re-checked); a "
+         "HalfLockProof.tla carries a TLAPS proof of the same for any number of readers (44 obligations, re-checked); a "
          "delivery stalled in real time inside an earlier action while another thread removes a later one (probe stall); a "
          "real delivery at every instruction boundary of unregister / unregister_signal / drop (probe step)",
          "7.C01", "TLA+ fine model + parameter extraction + exhaustive schedule enumeration of real code + TLC trace validation"),
